@@ -175,7 +175,8 @@ def main(argv):
     seed = int(os.environ.get('VERIF_SEED', '0') or 0)
     jobs = int(os.environ.get('VERIF_JOBS', '0') or 0) or min(16, os.cpu_count() or 4)
     t0 = time.time()
-    ev_path = os.path.join(VERIF, 'evidence', pid + '.json')
+    out_dir = os.environ.get('VERIF_OUT_DIR', VERIF)      # scratch runs against another checkout keep their evidence/replays apart
+    ev_path = os.path.join(out_dir, 'evidence', pid + '.json')
     os.makedirs(os.path.dirname(ev_path), exist_ok=True)
     try:
         mod = importlib.import_module('harness.' + pid.lower())
@@ -207,7 +208,7 @@ def main(argv):
     errors = []
     inconclusive = []
     per_ob = {}
-    os.makedirs(os.path.join(VERIF, 'replays'), exist_ok=True)
+    os.makedirs(os.path.join(out_dir, 'replays'), exist_ok=True)
     for r in sorted(results, key=lambda r: (r['ob'], r['case'])):
         o = obs[r['ob']]
         case = o.cases[r['case']]
@@ -236,7 +237,7 @@ def main(argv):
                 errors.append('%s case %r: no path reached the checks (vacuous)' % (o.name, _short(case)))
         elif st == 'cex':
             fname = '%s-%s-%d.json' % (pid, ''.join(c if c.isalnum() else '_' for c in o.name)[:60], r['case'])
-            rp = os.path.join(VERIF, 'replays', fname)
+            rp = os.path.join(out_dir, 'replays', fname)
             json.dump({'property': pid, 'obligation': o.name, 'tier': tier, 'case': _jsonable(case), 'cex': _jsonable(r.get('cex')),
                        'failed': r.get('failed'), 'detail': r.get('detail', '')}, open(rp, 'w'), indent=1)
             env = dict(os.environ)
